@@ -43,4 +43,14 @@ theorem repeat_string_old_wraps :
     repeatStringOld 4 4611686018427387904 1000 = .ok 0 ∧ repeatString 4 4611686018427387904 1000 = .err := by
   decide
 
+/-- before fix 5334d17: compose_mapping counted the unlinked nodes in an `unsigned short`; a mapping of 70000 keys
+    composed with an empty one kept `count` = 65536 with no node left (MaxMappingSize above 65535) -/
+theorem compose_count_wraps_16 :
+    composeStep 16 { count := 70000, nodes := 70000 } 0 = { count := 65536, nodes := 0 } ∧
+    composeMappingW 16 70000 0 = .ok 65536 ∧ composeMapping 70000 0 = .ok 0 := by decide
+
+/-- before fix ab97f18: save_variable (allocate (49)) is a 102 character string under MaxStringLength 100 -/
+theorem save_variable_old_exceeds :
+    saveVariableOld (valZeros 49) = .ok 102 ∧ saveVariable (valZeros 49) 100 = .err := by decide
+
 end NV.C04
